@@ -10,9 +10,12 @@ import (
 	"math"
 	"math/big"
 	"os"
+	"os/exec"
 	"path/filepath"
+	"sort"
 	"strconv"
 	"strings"
+	"syscall"
 )
 
 type draw struct {
@@ -270,6 +273,10 @@ func RunList(hs map[string]func()) {
 		if len(f) != 4 {
 			continue
 		}
+		if c := os.Getenv("ZZ_CHILD"); c != "" && c != f[0] {
+			continue // child process of CatchExit: only the replay that spawned it
+		}
+		curReplay = f[0]
 		fmt.Fprintf(out, "ZZBEGIN %s\n", f[0])
 		h := hs[f[1]]
 		if h == nil {
@@ -322,6 +329,98 @@ func nativeCompareDecls(a, b, mode string) (string, bool) {
 	_ = os.WriteFile(outFile(fmt.Sprintf("cmp_%d_mode.txt", nCmp)), []byte(mode), 0o644)
 	nCmp++
 	return compareDeclsNative(a, b, mode)
+}
+
+// ---- the CLI as a unit (native edition) ----
+//
+// The program under test really reads and writes files and really calls os.Exit, so the
+// closure runs in a child process: the test binary re-executes itself with ZZ_CHILD=<replay
+// index>; the child replays the same draws up to CatchExit, routes file descriptors 1 and 2
+// to capture files and runs the closure.  The parent reads the status and the captures.
+
+const OutRoot = "/tmp/zzvfs/out"
+
+var (
+	curReplay            string
+	lastStdout, lastStderr []byte
+)
+
+func VFileData(path, content string) {
+	if filepath.IsAbs(path) {
+		_ = os.MkdirAll(filepath.Dir(path), 0o755)
+		_ = os.WriteFile(path, []byte(content), 0o644)
+	}
+}
+
+func CatchExit(f func()) int {
+	dir := os.Getenv("ZZ_OUT")
+	so, se := filepath.Join(dir, "child_stdout.txt"), filepath.Join(dir, "child_stderr.txt")
+	if os.Getenv("ZZ_CHILD") != "" {
+		fo, err1 := os.Create(so)
+		fe, err2 := os.Create(se)
+		if err1 != nil || err2 != nil {
+			os.Exit(251)
+		}
+		if null, err := os.OpenFile(os.DevNull, os.O_WRONLY, 0); err == nil {
+			out = null // protocol lines of the child are not the program's output
+		}
+		_ = syscall.Dup2(int(fo.Fd()), 1)
+		_ = syscall.Dup2(int(fe.Fd()), 2)
+		f()
+		os.Exit(250)
+	}
+	_ = os.RemoveAll(OutRoot)
+	var args []string
+	for _, a := range os.Args[1:] {
+		// the testing package turns os.Exit(0) into a panic under this flag
+		if !strings.HasPrefix(a, "-test.paniconexit0") {
+			args = append(args, a)
+		}
+	}
+	cmd := exec.Command(os.Args[0], args...)
+	cmd.Env = append(os.Environ(), "ZZ_CHILD="+curReplay)
+	err := cmd.Run()
+	code := 0
+	if ee, ok := err.(*exec.ExitError); ok {
+		code = ee.ExitCode()
+	} else if err != nil {
+		panic("zzvrt.CatchExit: cannot run the child process: " + err.Error())
+	}
+	lastStdout, _ = os.ReadFile(so)
+	lastStderr, _ = os.ReadFile(se)
+	if code == 250 {
+		return -1
+	}
+	return code
+}
+
+func Stdout() string { return string(lastStdout) }
+func Stderr() string { return string(lastStderr) }
+
+func WrittenFiles() []string {
+	var names []string
+	_ = filepath.Walk(OutRoot, func(p string, info os.FileInfo, err error) error {
+		if err == nil && !info.IsDir() {
+			names = append(names, p)
+		}
+		return nil
+	})
+	sort.Strings(names)
+	return names
+}
+
+func WrittenFile(path string) string {
+	b, _ := os.ReadFile(path)
+	return string(b)
+}
+
+func Outcome() string {
+	var sb strings.Builder
+	fmt.Fprintf(&sb, "stdout:\n%s\n--\nstderr:\n%s\n--\n", lastStdout, lastStderr)
+	for _, n := range WrittenFiles() {
+		fmt.Fprintf(&sb, "file %s:\n%s\n--\n", n, WrittenFile(n))
+	}
+	return sb.String()
 }
 
 // VFile (native): creates the file under the scratch root so that os.Stat succeeds.
